@@ -432,12 +432,34 @@ def run(ctx):
     ctx.holds('R12m', m, None, 'no positional argument named like another parameter of its callee', construct='argument order scan',
               trivial=True)
 
+    ini_ = meths.get('__init__')
+    # ---- R12q: the legacy dictionaries default to the default dictionaries
+    ctx.rule('R12q', 'LatexNodes2Text(macro_dict=.. / env_dict=..): the dictionary that is NOT given is the corresponding default '
+                     'dictionary (`flags.pop(name, default_<name>)`): with an empty one instead, the math environments have no '
+                     'text specification, are rendered as ordinary text, and math_mode=remove / verbatim / with-delimiters '
+                     'no longer apply to them', 2)
+    n_ld = 0
+    for nm_ in ('macro_dict', 'env_dict'):
+        defs_ = [a_ for a_ in ast.walk(ini_) if isinstance(a_, ast.Assign) and len(a_.targets) == 1
+                 and isinstance(a_.targets[0], ast.Name) and a_.targets[0].id == nm_]
+        for a_ in defs_:
+            n_ld += 1
+            v_ = a_.value
+            okd = isinstance(v_, ast.Call) and call_name(v_) == 'pop' and len(v_.args) == 2 and \
+                isinstance(v_.args[0], ast.Constant) and v_.args[0].value == nm_ and \
+                isinstance(v_.args[1], ast.Name) and v_.args[1].id == 'default_' + nm_
+            ctx.decide('R12q', okd, m, a_, '%s defaults to default_%s' % (nm_, nm_),
+                       '%s is taken as %s: when it is not given (or given empty) it does not become default_%s -- with '
+                       'macro_dict= alone, equation / align / ... have no latex2text specification and their content is rendered '
+                       'as plain text whatever math_mode says' % (nm_, short(v_, 60), nm_), construct='__init__: legacy ' + nm_)
+    if n_ld < 2:
+        ctx.unknown('R12q', m, ini_, 'definitions of macro_dict / env_dict in __init__ not found', construct='__init__: legacy dicts')
+
     # ---- R12p: every option is read whatever the other options are
     ctx.rule('R12p', 'LatexNodes2Text.__init__ reads each option (`self.X = flags.pop(NAME, default)`) unconditionally, or in an '
                      'if/else every arm of which assigns self.X: reading keep_comments only in the arm that also reads math_mode '
                      'drops it whenever the obsolete keep_inline_math spelling is used (the module-level latex2text() always '
-                     'uses it), and every comment vanishes although keep_comments=True was given', 5)
-    ini_ = meths.get('__init__')
+                     'uses it), and every comment vanishes although keep_comments=True was given', 3)
     n_op = 0
     for st_ in [x_ for x_ in ast.walk(ini_) if isinstance(x_, ast.Assign) and len(x_.targets) == 1
                 and is_self_attr(x_.targets[0]) and isinstance(x_.value, ast.Call) and call_name(x_.value) == 'pop'
@@ -461,7 +483,7 @@ def run(ctx):
         ctx.decide('R12p', okp, m, st_, 'option %r read on every path' % st_.value.args[0].value,
                    'the option %r is read (%s) only on some paths: %s, so there the option the caller gave is silently '
                    'ignored' % (st_.value.args[0].value, short(st_, 60), why_), construct='__init__: option %s' % st_.value.args[0].value)
-    if n_op < 5:
+    if n_op < 3:
         ctx.unknown('R12p', m, ini_, 'only %d option reads found in __init__' % n_op, construct='__init__: options')
 
     # ---- R12o: content is rendered by the converter, not read off the nodes
